@@ -298,6 +298,67 @@ def check_diff(desc, ctx):
     ctx.label(f)
 
 
+# ---- in-place edits of the public containers ----------------------------------------------------------------------------
+INPLACE = ["meta_value", "meta_new_key", "data_value", "branch_mark", "material_prop", "extra_value"]
+
+
+def strat_inplace():
+    return st.builds(lambda field, iso, k, read_first: {"field": field, "iso": iso, "k": k, "read_first": read_first},
+                     st.sampled_from(INPLACE), S.point_desc(min_points=1, max_points=8, grid=6, force_extras=True, extras=True),
+                     st.integers(0, 10 ** 6), st.sampled_from([True, True, False]))
+
+
+def check_inplace(desc, ctx):
+    """The identifier reflects the CURRENT content: after an in-place edit of metadata / data / material properties through
+    the public containers it differs from the id before the edit and equals the id of a freshly built isotherm with the
+    edited content (whether or not the id was read - and possibly cached - before the edit)."""
+    K.reset_registries()
+    d = copy.deepcopy(desc["iso"])
+    d["meta"] = dict(d.get("meta") or {}, user="u0")
+    a0 = K.build_point(d)
+    d["branch"] = [int(x) for x in a0.data_raw["branch"].tolist()]
+    a = K.build_point(d)
+    before = K.build_point(d).iso_id
+    if desc["read_first"]:
+        if a.iso_id != before or not (a == K.build_point(d)):
+            raise Violation("two isotherms built from the same descriptor differ", tag="same_content:rebuild")
+    e = copy.deepcopy(d)
+    f, k = desc["field"], desc["k"]
+    n = len(e["pressure"])
+    i = k % n
+    if f == "meta_value":
+        a.properties["user"] = "u1"
+        e["meta"]["user"] = "u1"
+    elif f == "meta_new_key":
+        a.properties["added_later"] = 7
+        e["meta"]["added_later"] = 7
+    elif f == "data_value":
+        new = round(e["loading"][i] + 1e-6, 6)
+        a.data_raw.loc[a.data_raw.index[i], a.loading_key] = new
+        e["loading"][i] = new
+    elif f == "branch_mark":
+        new = 1 - e["branch"][i]
+        a.data_raw.loc[a.data_raw.index[i], "branch"] = new
+        e["branch"][i] = new
+    elif f == "material_prop":
+        a.material.properties["density"] = e["material"]["density"] + 0.25
+        e["material"]["density"] = e["material"]["density"] + 0.25
+    elif f == "extra_value":
+        new = round(e["extra"]["enthalpy"][i] + 0.0001, 4)
+        a.data_raw.loc[a.data_raw.index[i], "enthalpy"] = new
+        e["extra"]["enthalpy"][i] = new
+    fresh = K.build_point(e)
+    if a.iso_id == before:
+        raise Violation(f"in-place edit of {f} (id {'read' if desc['read_first'] else 'not read'} before the edit) left the "
+                        f"identifier unchanged ({before})", tag=f"inplace_stale:{f}")
+    if a.iso_id != fresh.iso_id or not (a == fresh) or a not in [fresh]:
+        raise Violation(f"after an in-place edit of {f} the isotherm's id {a.iso_id} differs from a freshly built isotherm "
+                        f"with the same content ({fresh.iso_id})", tag=f"inplace_vs_fresh:{f}")
+    ctx.nt([f, desc["read_first"], d["pressure"], d["loading"], k % 97], desc)
+    ctx.label(f, "read_first" if desc["read_first"] else "not_read")
+
+
+
 # ---- model and metadata-only isotherms -----------------------------------------------------------------------------------
 def strat_model():
     return st.builds(
@@ -306,7 +367,7 @@ def strat_model():
             "material": mat, "model": name, "K": Kp, "n_m": nm, "field": field, "meta": meta},
         S.units(), S.ads_T(), S.material(), st.sampled_from(["Langmuir", "Henry", "Toth", "DSLangmuir", "BET"]),
         st.floats(0.01, 100).map(lambda x: round(x, 6)), st.floats(0.1, 50).map(lambda x: round(x, 6)),
-        st.sampled_from(["same_rebuild", "same_dict", "param", "param_last_digits", "param_small_magnitude", "model_name", "range",
+        st.sampled_from(["same_rebuild", "same_dict", "param", "param_last_digits", "param_small_magnitude", "param_in_place", "model_name", "range",
                          "rmse", "meta", "unit"]),
         st.dictionaries(st.sampled_from(["user", "k1", "comment"]), st.one_of(st.integers(0, 5), st.text("abc", max_size=3)), max_size=2))
 
@@ -349,6 +410,13 @@ def check_model(desc, ctx):
     elif f == "param_last_digits":
         # any change of a model parameter is a content change (the 8-decimal rounding applies to data points only)
         b = _miso(desc, _model(desc, kfactor=1.0 + 1e-11))
+        same = False
+    elif f == "param_in_place":
+        # a parameter edited in place on the live model object after the id was read
+        b = _miso(desc, _model(desc))
+        if b.iso_id != a.iso_id:
+            raise Violation("model isotherms with the same content have different ids", tag="model_same:rebuild")
+        b.model.params["K" if "K" in b.model.params else list(b.model.params)[0]] *= 1.5
         same = False
     elif f == "param_small_magnitude":
         # parameters of small magnitude (e.g. an affinity per Pa): 1.2e-9 * K vs 3.4e-9 * K
@@ -439,6 +507,8 @@ CHECKS = [
           rule="same content by another construction route -> same id, ==, membership"),
     Check("different_content", check_diff, strategy=strat_diff, budget={"quick": 4000, "thorough": 60000},
           rule="one field minimally changed -> different id"),
+    Check("inplace_edits", check_inplace, strategy=strat_inplace, budget={"quick": 2000, "thorough": 30000},
+          rule="in-place edits through the public containers (properties, data_raw, material.properties): id follows content"),
     Check("model_and_base", check_model, strategy=strat_model, budget={"quick": 2000, "thorough": 30000},
           rule="model / metadata-only isotherms: same by rebuild, different by one field"),
     Check("other_process", check_process, strategy=strat_process, budget={"quick": 16, "thorough": 160}, shrink=False,
